@@ -17,7 +17,7 @@ open Pool.Dec
 
 /-- (regenerated fact) the current sidecar/tlv.go calls the size-capped tlv decoders -/
 theorem C19_repo_decoders_capped (m : Nat) : (repoCfg m).p2pTop = true ∧ (repoCfg m).p2pSub = true := by
-  constructor <;> rfl
+  constructor <;> simp [repoCfg] <;> decide
 
 /-- For EVERY byte string, `DeserializeTicket` yields a ticket or an error — never a panic, and the
 decoding loop ends within `len+1` iterations — provided the runtime grants allocations of 65535 bytes. -/
@@ -57,6 +57,25 @@ theorem C19_pinned_ticket_panics_unknown_type (maxAlloc : Nat) (h : maxAlloc < 2
   simp [deserializeTicket, pinnedCfg, decodeStream, ticketRecs, sortedTypes, decodeLoop, readVarInt, beNat,
     getRecord, ha, Pool.Gen.C15.idType, Pool.Gen.C15.versionType, Pool.Gen.C15.stateType,
     Pool.Gen.C15.offerType, Pool.Gen.C15.recipientType, Pool.Gen.C15.orderType, Pool.Gen.C15.executionType]
+
+/-- The cap matters at the NESTED level too: were `decodeBytes` to use the uncapped `DecodeWithParsedTypes`
+(top level still capped), a 12-byte ticket whose offer stream holds an unknown record declaring 2^64-1
+bytes would panic in `make([]byte, 0, length)` – the outer cap bounds the nested BYTES, not the lengths
+declared inside them. -/
+theorem C19_nested_uncapped_with_types_panics (maxAlloc : Nat) (h : maxAlloc < 2 ^ 64 - 1) (h2 : 12 ≤ maxAlloc) :
+    deserializeTicket { p2pTop := true, p2pSub := false, typesSub := true, maxAlloc := maxAlloc }
+      [10, 10, 99, 0xff, 0xff, 0xff, 0xff, 0xff, 0xff, 0xff, 0xff, 0xff] = .panic := by
+  have ha : alloc maxAlloc 18446744073709551615 = .panic := by
+    unfold alloc; rw [if_pos (by omega)]
+  have hb : alloc maxAlloc 10 = .ok () := by
+    unfold alloc; rw [if_neg (by omega)]
+  simp [deserializeTicket, decodeStream, ticketRecs, sortedTypes, decodeLoop, readVarInt, beNat, getRecord,
+    dVarBytes, readFull, ha, hb, maxRecordSize, deserializeOffer, decodeBytes, offerRecs,
+    Pool.Gen.C15.idType, Pool.Gen.C15.versionType, Pool.Gen.C15.stateType, Pool.Gen.C15.offerType,
+    Pool.Gen.C15.recipientType, Pool.Gen.C15.orderType, Pool.Gen.C15.executionType,
+    Pool.Gen.C15.capacityType, Pool.Gen.C15.pushAmtType, Pool.Gen.C15.leaseDurationType,
+    Pool.Gen.C15.signPubKeyType, Pool.Gen.C15.sigOfferDigestType, Pool.Gen.C15.offerAutoType,
+    Pool.Gen.C15.unannouncedChannelType, Pool.Gen.C15.zeroConfChannelType]
 
 /-! ## auctioneer messages -/
 
